@@ -282,6 +282,8 @@ def finding_key(kind, cfg):
         parts.append('second-iteration')
     if cfg.get('pre'):
         parts.append('+'.join(str(x) for x in cfg['pre']))
+    if cfg.get('copy_first'):
+        parts.append('via-copy')
     return '/'.join(parts)
 
 
@@ -331,22 +333,31 @@ def run_matrix(prop, oracle_name, jobs, result, label, cap=60000):
     return total
 
 
-def _cross_task(cfg):
-    a = M.explore(cfg, oracle_values, 'P', None, 100000)
-    b = M.explore(cfg, oracle_values, 'D', None, 100000)
-    c = M.explore(cfg, oracle_values, 'B', 10 ** 6, 100000) if cfg['w'] == 1 else None     # no reduction at all
-    return cfg, set(a[2]), set(b[2]), (set(c[2]) if c else None), a[0]['executions'], b[0]['executions']
+def _cross_task(args):
+    cfg, oracle_name = args
+    orc = globals()[oracle_name]
+    a = M.explore(cfg, orc, 'P', None, 100000)
+    b = M.explore(cfg, orc, 'D', None, 100000)
+    c = M.explore(cfg, orc, 'B', 10 ** 6, 100000) if (cfg['w'] == 1 and cfg['n'] <= 3) else None     # no reduction at all
+    sig = lambda r: (set(r[2]), sorted(v['kind'] for v in r[1]))      # noqa: E731
+    return cfg, sig(a), sig(b), (sig(c) if c else None), a[0]['executions'], b[0]['executions']
 
 
 def crosscheck(result):
     """Soundness cross-check of the reductions: the same small configurations explored with plain sleep sets
-    (mode P), with DPOR (mode D) and without any reduction must produce the same set of outcomes."""
-    cfgs = [dict(entry='prefetch', n=2, w=1, b=1), dict(entry='prefetch', n=2, w=2, b=2, fail_fn={1: 'ValueError'}),
-            dict(entry='prefetch', n=3, w=1, b=1, consumers=[['close', 1]]), dict(entry='parmap', n=3, w=2, b=2),
-            dict(entry='prefetch', n=3, w=2, b=2, fail_fn={0: 'ValueError'}, backend='mp')]
+    (mode P), with DPOR (mode D) and without any reduction must produce the same outcomes and verdicts."""
+    cfgs = [(dict(entry='prefetch', n=2, w=1, b=1), 'oracle_values'),
+            (dict(entry='prefetch', n=2, w=2, b=2, fail_fn={1: 'ValueError'}), 'oracle_values'),
+            (dict(entry='prefetch', n=3, w=1, b=1, consumers=[['close', 1]]), 'oracle_values'),
+            (dict(entry='parmap', n=3, w=2, b=2), 'oracle_values'),
+            (dict(entry='prefetch', n=3, w=2, b=2, fail_fn={0: 'ValueError'}, backend='mp'), 'oracle_values'),
+            (dict(entry='prefetch', n=1, w=2, b=2, pre=['cache', 'tile2'], log_points=['start']), 'oracle_once'),
+            (dict(entry='prefetch', n=3, w=1, b=1, consumers=[['close', 1]], sync_events=['returned', 'shutdown-begin']),
+             'oracle_stop')]
     rows = []
     for cfg, a, b, c, na, nb in common.pmap(_cross_task, cfgs):
-        rows.append({'cfg': cfg, 'executions_sleep_sets': na, 'executions_dpor': nb, 'outcomes': len(a)})
+        rows.append({'cfg': cfg, 'executions_sleep_sets': na, 'executions_dpor': nb, 'outcomes': len(a[0]),
+                     'verdicts': a[1]})
         if a != b or (c is not None and c != a):
             result.harness_errors.append(f'reduction cross-check failed for {cfg}: sleep sets {a}, DPOR {b}, none {c}')
     result.coverage['reduction_crosscheck'] = rows
